@@ -1,8 +1,9 @@
 """C08 — 256-bit arithmetic is exact or aborts, never silently wrong.
 
 Events: (op, operand limbs) -> result limbs | panic, observed through halosrv.
-Oracle: Python ints; the observed outcome must equal the expectation BOTH ways
-(no spurious aborts, no missed ones)."""
+Oracle: Python ints. A returned value must be the exact result; an abort is accepted only where the property permits
+one (operand product or result >= 2^256, zero divisor, negative difference); a value where no result is representable,
+a wrong value, or an abort anywhere else is a violation."""
 import itertools
 
 from .. import gen
@@ -14,63 +15,75 @@ PROP = "C08"
 # expectation returns ("ok", value) or ("abort", reason)
 
 
+# An expectation is (exact, abort_allowed):
+#   exact         the mathematical result (rounded toward zero where the type requires) if it is representable in
+#                 256 bits, else None (zero divisor, negative difference, result >= 2^256);
+#   abort_allowed True iff the property permits an abort here: an operand product or the result exceeds 256 bits,
+#                 a divisor is zero, or a difference would be negative.
+# Observed ok   => exact is not None and the value equals it (a correct value is always acceptable, even where an
+#                  abort would have been permitted);
+# observed abort => abort_allowed.
+
+
+def _fit(v):
+    return v if v < U256 else None
+
+
 def _mulratio(a, n, d):
     if d == 0:
-        return ("abort", "zero_divisor")
-    if a * n >= U256:
-        return ("abort", "product_overflow")
-    return ("ok", a * n // d)
+        return (None, True)
+    return (_fit(a * n // d), a * n >= U256)
 
 
 def e_u_add(a, b):
-    return ("abort", "result_overflow") if a + b >= U256 else ("ok", a + b)
+    return (_fit(a + b), a + b >= U256)
 
 
 def e_u_sub(a, b):
-    return ("abort", "negative") if a < b else ("ok", a - b)
+    return (None, True) if a < b else (a - b, False)
 
 
 def e_u_mul(a, b):
-    return ("abort", "result_overflow") if a * b >= U256 else ("ok", a * b)
+    return (_fit(a * b), a * b >= U256)
 
 
 def e_u_mul_dec(a, d):
-    if a == 0 or d == 0:
-        return ("ok", 0)
-    return _mulratio(a, d, D)
+    return (_fit(a * d // D), a * d >= U256)
 
 
 def e_u_div_dec(a, d):
     if d == 0:
-        return ("abort", "zero_divisor")
-    if a == 0:
-        return ("ok", 0)
-    return _mulratio(a, D, d)
+        return (None, True)
+    return (_fit(a * D // d), a * D >= U256)
 
 
 def e_d_mul(a, b):
-    return ("abort", "product_overflow") if a * b >= U256 else ("ok", a * b // D)
+    return (_fit(a * b // D), a * b >= U256)
 
 
 def e_d_div(a, b):
     if b == 0:
-        return ("abort", "zero_divisor")
-    return ("abort", "product_overflow") if a * D >= U256 else ("ok", a * D // b)
+        return (None, True)
+    return (_fit(a * D // b), a * D >= U256)
 
 
 def e_d_from_ratio(n, d):
     if d == 0:
-        return ("abort", "zero_divisor")
-    return ("abort", "product_overflow") if n * D >= U256 else ("ok", n * D // d)
+        return (None, True)
+    return (_fit(n * D // d), n * D >= U256)
 
 
 def e_d_from_uint(v):
-    return ("abort", "result_overflow") if v * D >= U256 else ("ok", v * D)
+    return (_fit(v * D), v * D >= U256)
 
 
 def _cmp(a, b):
     o = -1 if a < b else (1 if a > b else 0)
-    return ("ok", [o, a == b, a < b, a <= b, a > b, a >= b])
+    return ([o, a == b, a < b, a <= b, a > b, a >= b], False)
+
+
+def _narrow(a):
+    return (a, False) if a < U128 else (None, True)
 
 
 OPS = {
@@ -79,16 +92,15 @@ OPS = {
     "u_div_dec": (2, e_u_div_dec), "u_cmp": (2, _cmp), "d_cmp": (2, _cmp),
     "d_add": (2, e_u_add), "d_add_assign": (2, e_u_add), "d_sub": (2, e_u_sub), "d_mul": (2, e_d_mul),
     "d_div": (2, e_d_div), "d_from_ratio": (2, e_d_from_ratio), "d_from_uint256": (1, e_d_from_uint),
-    "u_is_zero": (1, lambda a: ("ok", a == 0)), "d_is_zero": (1, lambda a: ("ok", a == 0)),
-    "u_to_u128": (1, lambda a: ("abort", "narrowing") if a >= U128 else ("ok", a)),
-    "u_to_uint128": (1, lambda a: ("abort", "narrowing") if a >= U128 else ("ok", a)),
+    "u_is_zero": (1, lambda a: (a == 0, False)), "d_is_zero": (1, lambda a: (a == 0, False)),
+    "u_to_u128": (1, _narrow), "u_to_uint128": (1, _narrow),
 }
 SCALAR = {  # ops taking a u64 / u128 scalar rather than limbs
-    "d_percent": lambda x: ("ok", x * 10 ** 16),
-    "d_permille": lambda x: ("ok", x * 10 ** 15),
-    "u_from_u64": lambda x: ("ok", x),
-    "u_from_u128": lambda x: ("ok", x),
-    "u_from_uint128": lambda x: ("ok", x),
+    "d_percent": lambda x: (x * 10 ** 16, False),
+    "d_permille": lambda x: (x * 10 ** 15, False),
+    "u_from_u64": lambda x: (x, False),
+    "u_from_u128": lambda x: (x, False),
+    "u_from_uint128": lambda x: (x, False),
 }
 GRID_OPS = ["u_add", "u_sub", "u_mul", "u_cmp", "d_mul", "d_div"]
 
@@ -110,19 +122,26 @@ def encode_args(op, args):
 
 
 def judge(op, args, resp):
-    """Returns None if the observation agrees with exact arithmetic, else a description."""
-    exp = SCALAR[op](*args) if op in SCALAR else OPS[op][1](*args)
+    """Returns None if the observation is allowed by exact arithmetic, else a description."""
+    exact, abort_allowed = SCALAR[op](*args) if op in SCALAR else OPS[op][1](*args)
     r = resp["r"]
-    if exp[0] == "abort":
-        if r == "panic":
+    if r == "panic":
+        if abort_allowed:
             return None
-        return "expected abort (%s) but got %r" % (exp[1], resp)
+        return "spurious abort: %r (the exact result %r fits and no operand product exceeds 256 bits)" % (resp.get("e"), exact)
     if r != "ok":
-        return "spurious %s: %r (exact result %r fits)" % (r, resp.get("e"), exp[1])
+        return "unexpected outcome %r" % (resp,)
     got = decode(op, resp["v"])
-    if got != exp[1]:
-        return "wrong value: got %r, exact %r" % (got, exp[1])
+    if exact is None:
+        return "returned %r where no result is representable (zero divisor / negative difference / result >= 2^256)" % (got,)
+    if got != exact:
+        return "wrong value: got %r, exact %r" % (got, exact)
     return None
+
+
+def expected_kind(op, args):
+    exact, abort_allowed = SCALAR[op](*args) if op in SCALAR else OPS[op][1](*args)
+    return ("noresult" if exact is None else "value") + ("+abort_ok" if abort_allowed else "")
 
 
 def steer(rng, mult, mod, maxv):
@@ -213,7 +232,9 @@ def run_cases(acc, srv, cases):
         acc.ev()
         bad = judge(op, args, resp)
         outcome = resp["r"]
-        acc.cls(op, outcome, tag, *[gen.bucket(x) for x in args])
+        acc.cls(op, outcome, expected_kind(op, args), tag, *[gen.bucket(x) for x in args])
+        if outcome == "ok" and "abort_ok" in expected_kind(op, args):
+            acc.count("exact_value_where_abort_was_permitted")
         acc.count("outcome_" + outcome)
         if bad:
             acc.violation("%s%r: %s" % (op, tuple(args), bad),
